@@ -106,7 +106,8 @@ CLAIMED["C06"] = dict(
           "states the two resampling modes and the covariance invariants (WeightsSumToOne, Symmetric, PSD, PosteriorIsPriorMinusKSKt, "
           "PosteriorLePrior, NoObsReturnsPropagatedMean, RedrawIsTextbookKalman, NoRedrawIsVariant) over 1-2-state systems, stacks of "
           "simultaneous observations, 1-2 steps and rational unscented-transform tunings; every behaviour is replayed into the real "
-          "UnscentedKalmanFilter through its result objects and must agree with the rationals to 1e-9. For dimensions 1-8, dense "
+          "UnscentedKalmanFilter through its result objects and must agree with the rationals to 1e-9, once in the posed units and once more "
+          "in units scaled by a power of two (UnitChangeEquivariant: gain unchanged, covariances scale by c^2). For dimensions 1-8, dense "
           "matrices and up to 4 stacked observations the same relations are evaluated on logged matrices and validated by TLC against "
           "TraceLinearGaussian.tla as integer-projected residuals (relations only)."),
     ref="5 C06", technique="TLA+ exact-rational spec LinearGaussian.tla + TLC as oracle; spec->impl replay into the real UKF; trace validation of integer-projected residuals",
